@@ -55,7 +55,11 @@ C06For(maps, sp, idx, limited, isCrash, region) ==
           /\ region.start <= sp /\ sp < region.start + region.len
           /\ (unshortened \/ (Shorten(idx, limited, isCrash) /\ region.len <= Cap))
      ELSE region.len = 0 \/ (/\ region.start > sp /\ region.start <= PageOf(sp) + (GuardPages + 1) * P
-                            /\ MayBeStack(maps, Find(maps, region.start)))
+                            /\ MayBeStack(maps, Find(maps, region.start))
+                            \* it BEGINS at that mapping, the first plausible one above the stack pointer - also when shortened
+                            /\ region.start = maps[Find(maps, region.start)].s
+                            /\ ~\E k \in DOMAIN maps : MayBeStack(maps, k) /\ maps[k].s > sp /\ maps[k].s < region.start
+                            /\ (region.start + region.len = maps[Find(maps, region.start)].e \/ (Shorten(idx, limited, isCrash) /\ region.len <= Cap)))
 C20For(prin, ip, words, region, included) ==
    region.len > 0 => (included <=> ((prin.low <= ip /\ ip < prin.high) \/ \E j \in DOMAIN words : prin.low <= words[j] /\ words[j] < prin.high))
 
